@@ -194,6 +194,19 @@ fn json_case(cx: &CaseCtx, rep: &mut Report, rng: &mut Rng) {
 		if i % 50 == 0 {
 			v = nest(v, 64, rng);
 		}
+		if i % 50 == 25 {
+			// wide instead of deep: hundreds of empty arrays / objects / strings side by side (a sparse table)
+			let n = rng.range(100, 400) as usize;
+			let cell = |k: usize| match k % 4 {
+				0 => JsonValue::Array(JsonArray(vec![])),
+				1 => JsonValue::Object(JsonObject(BTreeMap::new())),
+				2 => JsonValue::String(String::new()),
+				_ => JsonValue::Array(JsonArray(vec![JsonValue::Array(JsonArray(vec![]))])),
+			};
+			let only_arrays = rng.bool();
+			v = JsonValue::Array(JsonArray((0..n).map(|k| if only_arrays { cell(0) } else { cell(k) }).collect()));
+			rep.count("json_values_with_hundreds_of_empty_members", 1);
+		}
 		rep.eval();
 		rep.count("json_values", 1);
 		if has_escape_key(&v) {
@@ -480,6 +493,48 @@ fn tilejson_case(cx: &CaseCtx, rep: &mut Report, rng: &mut Rng, served: bool) {
 			},
 		}
 		paths.push((target, path));
+	}
+	// metadata as another tool would write it: pretty-printed, several KiB long (a long list value), and shifted byte
+	// by byte so that its white space falls on every position relative to a reader's buffer size
+	if !cx.tier.is_tiny() && cx.case % 6 == 1 {
+		cx.progress("foreign pretty-printed metadata");
+		let mut big = doc.value.clone();
+		if let Some(o) = big.as_object_mut() {
+			o.insert("data".into(), json!((0..rng.range(60, 120)).map(|i| format!("item-{i}")).collect::<Vec<_>>()));
+			// many layers with many fields: objects inside objects, white space in front of every key and bracket
+			let layers: Vec<Value> = (0..rng.range(30, 60))
+				.map(|i| {
+					let fields: serde_json::Map<String, Value> = (0..rng.range(2, 9)).map(|k| (format!("field_{i}_{k}"), json!(*rng.pick(&["String", "Number", "Boolean"])))).collect();
+					json!({"id": format!("layer{i}"), "fields": fields, "description": format!("layer number {i}"), "minzoom": 0, "maxzoom": 14})
+				})
+				.collect();
+			o.insert("vector_layers".into(), Value::Array(layers));
+		}
+		let pretty = serde_json::to_string_pretty(&big).unwrap_or_default();
+		let doc2 = Doc { text: pretty.clone(), value: big, minzoom: doc.minzoom, maxzoom: doc.maxzoom, bounds: doc.bounds };
+		for shift in 0..cx.tier.pick(24, 64) {
+			let text = format!("{}{}", " ".repeat(shift as usize * 3 % 67), pretty).replacen("\n", &"\n".repeat(1 + shift as usize % 3), 1);
+			let mut ts2 = ts.clone();
+			ts2.tilejson = text.clone();
+			let sub = dir.join(format!("pretty{shift}"));
+			let witness = |extra: Value| json!({"container": "directory (independent encoder, pretty-printed metadata)", "metadata_bytes": text.len(), "leading_blanks": shift * 3 % 67, "detail": extra});
+			let o = crate::codec::idir::EncOpts { meta_name: "tiles.json", no_meta: false, stray_files: false, alt_spellings: false };
+			if crate::codec::idir::encode(&ts2, &sub, &o).is_err() {
+				continue;
+			}
+			rep.eval();
+			rep.count("tilejson_roundtrips_foreign_pretty_printed", 1);
+			let r = guard::catch(|| guard::block_on(async { versatiles_container::get_reader(sub.to_str().unwrap()).await.map(|r| r.get_tilejson().as_string()) }));
+			match r {
+				Err(p) => rep.violation(&p.signature("tilejson-container-directory"), "reading the container panicked", witness(json!({"panic": p.describe()}))),
+				Ok(Err(e)) => rep.violation("container|directory|failed", "reading the container failed", witness(json!({"error": format!("{e:#}")}))),
+				Ok(Ok(text)) => match serde_json::from_str::<Value>(&text) {
+					Err(e) => rep.violation("container|directory|returned-text-not-json", "the TileJSON handed back is not valid JSON", witness(json!({"error": e.to_string()}))),
+					Ok(got) => compare_doc(rep, "container|directory(pretty)", &doc2, &got, &ts, &[], &witness),
+				},
+			}
+			let _ = std::fs::remove_dir_all(&sub);
+		}
 	}
 	if served {
 		cx.progress("served tiles.json");
